@@ -403,6 +403,7 @@ func VrfC12Add() {
 	q.Set("only-hash", onlyHash)
 	q.Set("pin", pin)
 	q.Set("layout", layout)
+	q.Set("chunker", "size-1")
 	multipartBody := vrf_choice("multipart_body", 2) == 1
 	r := vrfAddRequest(q.Encode(), multipartBody)
 	w := &vrfWriter{hdr: http.Header{}}
@@ -421,6 +422,11 @@ func VrfC12Add() {
 		vrf_assert(vrfAddRan(s), "C12.add.performed")
 		if vrf_symbolic() && vrfAddParams != nil {
 			vrf_assert(vrfAddParams.Layout == layout, "C12.add.requested-layout")
+			vrf_assert(vrfAddParams.Chunker == "size-1", "C12.add.requested-chunker")
+		}
+		if !vrf_symbolic() && w.status == 200 && s.addedRoot.Defined() {
+			// natively the real adder ran: the root it pinned is the one the requested layout gives
+			vrf_assert(vrfAddedRoot(s).Equals(vrfExpectedAddRoot(layout)), "C12.add.requested-layout")
 		}
 		// pin=false: the added root is unpinned again (and only then)
 		added := w.status == 200
